@@ -1,5 +1,7 @@
 package main
 
+import "time"
+
 // Delta debugging over a case: queries → segments' documents → field instances → terms →
 // locations → script ops, keeping any reduction after which `bad` still holds.
 
@@ -41,8 +43,9 @@ func cloneCase(c *Case) *Case {
 
 func shrinkCase(c *Case, bad func(*Case) bool, budget int) *Case {
 	cur := cloneCase(c)
+	deadline := time.Now().Add(25 * time.Second)
 	try := func(cand *Case) bool {
-		if budget <= 0 {
+		if budget <= 0 || time.Now().After(deadline) {
 			return false
 		}
 		budget--
